@@ -119,6 +119,9 @@ def run(ctx):
                         if ld == "null" and lt[0] in "LN":
                             continue
                         ucases.append(f"{site} {vt} {vd} {lt} {ld}")
+    # the witness of the former defect D13 first, so that a regression is reported with the canonical input
+    first = ["field nA null NA -", "directive nA null NA -"]
+    ucases = first + [c for c in ucases if c not in set(first)]
     rows = ctx.correspond(impl, model, "c29_usage", ucases, describe=describe_usage,
                           compare=lambda i, m: i.split()[0] == m)
     oracle_rows(ctx, "c29_usage", rows,
